@@ -452,8 +452,8 @@ class Machine(object):
                       {'outcome': out}, idx)
             return
         for k in sorted(model):
-            a = L['obs'][k].get('thermochem')
-            b = canon[k].get('thermochem')
+            a = libops.pset(L['obs'][k], 'thermochem')
+            b = libops.pset(canon[k], 'thermochem')
             if a is None or b is None:
                 continue
             temps = grid(model[k])
@@ -865,8 +865,8 @@ class Machine(object):
             return ['props-skip']
         n = 0
         for k in sorted(a['model']):
-            ca = a['obs'][k].get('thermochem')
-            cb = b['obs'][k].get('thermochem')
+            ca = libops.pset(a['obs'][k], 'thermochem')
+            cb = libops.pset(b['obs'][k], 'thermochem')
             if ca is None or cb is None:
                 continue
             temps = grid(a['model'][k])
@@ -1026,7 +1026,7 @@ class Machine(object):
             "groups:\n    'X(Y)':\n        'thermochem':\n" + body + '\n')
         self.fs.files['/sim/exp/scheme.yaml'] = sg.SCHEME_TEXT
         o2, lib2 = self.load('/sim/exp/library.yaml')
-        c2 = lib2['X(Y)'].get('thermochem') if lib2 is not None else None
+        c2 = libops.pset(lib2['X(Y)'], 'thermochem') if lib2 is not None else None
         got['embedded'] = (o2, c2)
         dim = bool(op['units'].get('molar enthalpy'))
         for way in ('direct', 'embedded'):
@@ -1518,7 +1518,7 @@ def run_shipped_export(task):
     n = 0
     probes = {}
     for k in names:
-        corr = lib[k].get('thermochem')
+        corr = libops.pset(lib[k], 'thermochem')
         if corr is None:
             continue
         src = obs_record(corr)
